@@ -84,3 +84,11 @@ def r23_c17(scn, v):
     tasks that now succeed ends `succeeded` - the fail command is forgotten - where the clean run fails."""
     d = v.detail or {}
     return v.kind == "status-differs-from-clean-run" and d.get("rerun_status") == "succeeded" and d.get("clean_status") == "failed" and "fail-command" in (d.get("events") or [])
+
+
+def r3_c06(scn, v):
+    """R3 (owned by C06): at a join or in the terminal context a branch that merely inherited an older
+    value of a variable (its own copy of the publishing transition's delta) is overlaid after the branch
+    that republished it: the observed value is one of the candidates the model marks superseded."""
+    d = v.detail or {}
+    return v.kind in ("task-context-differs", "output-not-from-a-live-terminal-candidate") and d.get("observed_is_superseded_candidate") is True
